@@ -154,6 +154,18 @@ def run(ctx):
     ts = [c for c in cg(si) if 'to_string' in c or 'ToString' in c]
     C.check(has(si, r'ToString>::to_string$|::to_string$') and has(si, r'EnumItem::to_str$'), 'C20-SIB-format', 'serialize_internal|std-formatters', 'CharacterData::serialize_internal no longer formats numbers with to_string / enums with to_str', '%s:%d' % (si.file, si.line),
             sample={'fn': 'serialize_internal', 'formatters': ts[:4]})
+    # both numeric kinds are formatted by the std formatter directly (f64: shortest text that parses back to the same value, sign and
+    # infinities included); a hand-written number formatter in between is outside what std guarantees
+    fmt_types = set()
+    for x in P.with_closures(si):
+        for pos, t in x.iter_calls():
+            if call_matches(t, r'ToString>::to_string$|::to_string$') and t['args'] and 'l' in t['args'][0]:
+                ty = (x.local_ty(t['args'][0]['l']) or '')
+                for k_ in ('f64', 'u64'):
+                    if k_ in ty:
+                        fmt_types.add(k_)
+    C.check({'f64', 'u64'} <= fmt_types, 'C20-SIB-format', 'serialize_internal|f64-and-u64-through-std-to_string', 'CharacterData::serialize_internal does not format both numeric kinds with the std to_string directly (found %s): a hand-written formatter can lose information (e.g. the sign of -INF)' % sorted(fmt_types),
+            '%s:%d' % (si.file, si.line), sample={'fn': 'serialize_internal', 'std_formatted_kinds': sorted(fmt_types)})
     # typed parse: the locals that receive the parse results have types u64 / f64
     ptypes = set()
     for pos, t in pa.iter_calls():
